@@ -36,6 +36,16 @@ def N3():
     ]
 
 
+def N4():
+    long_a = "phosphate buffer pH 7.0, sterile filtered, lot 2024-11"
+    long_b = "phosphate buffer pH 8.5, sterile filtered, lot 2024-12"
+    return [
+        plate("P", 2, 3, 0, 400, [[100, 50, 0], [100, 25, 100]], {"A01": long_a, "B01": long_b, "A02": long_a + " (aliquot)"}),
+        plate("Q", 3, 2, 0, 300, 0),
+        trough("T", 3, 2, 20, 1000, [500, 300], [long_a, long_b]),
+    ]
+
+
 def ev_N12():
     core = [
         T("P", ["A01"], "Q", ["A01"], [30]),
@@ -113,7 +123,7 @@ def ev_N3():
     return core, full
 
 
-SETS = {"N1": (N1, ev_N12), "N2": (N2, ev_N12), "N3": (N3, ev_N3)}
+SETS = {"N1": (N1, ev_N12), "N2": (N2, ev_N12), "N3": (N3, ev_N3), "N4": (N4, ev_N12)}
 
 
 def contents_by_name(spec, W):
@@ -278,6 +288,12 @@ def totals(pairs):
     return out
 
 
+def rt_labware_trough(vr, C):
+    from ..world import rt
+
+    return rt.Labware("L", 1, C, min_volume=0, max_volume=100, initial_volumes=[[10.0 * (c + 1) for c in range(C)]], virtual_rows=vr)
+
+
 def naming_rule():
     """default component names for every geometry 1..4 x 1..4 and troughs with 1..3 columns"""
     V = []
@@ -300,6 +316,13 @@ def naming_rule():
                     for c in range(C):
                         if (a[r, c] != 0) != (exp.get((r, c), 0) == k and init[r][c] > 0) and exp.get((r, c), 0) is not None:
                             V.append(("C05/default-name", f"plate {R}x{C}: component '{k}' has fraction {a[r, c]} in {well_id(r, c)}"))
+    for C in range(2, 5):
+        for vr in (1, 2, 4):
+            # a multi-column trough declared through the generic constructor: one distinct component per column
+            lw = rt_labware_trough(vr, C)
+            comps = [k for k, a in lw.composition.items() if (a != 0).any()]
+            if len(comps) != C or any(sorted(float(x) for x in lw.composition[k].ravel()) != [0.0] * (C - 1) + [1.0] for k in comps):
+                V.append(("C05/default-name", f"Labware(rows=1, columns={C}, virtual_rows={vr}) with filled columns has components {sorted(lw.composition)}"))
     for C in range(1, 4):
         for vr in (1, 3):
             init = [10 * (c + 1) if c != 1 else 0 for c in range(C)]
